@@ -318,6 +318,66 @@ def run_error_world(ck, S, ET, ew, qitems):
                 ck.failing_input('a flags type of the dump is not a bitfield (or an enum type is)', dict(case, enumeration=e['name']))
 
 
+def fundamental_clauses(ck, S, ET, rng, n):
+    """instantiatable fundamental types of the runtime dump (GParamSpec, GstMiniObject, RegressTestFundamentalObject): a class marked
+    glib:fundamental, paired with its <Name>Class structure both ways, whose function-pointer members are its virtual methods; a
+    fundamental type deriving from another one has it as parent"""
+    for i in range(n):
+        names = ['FooFund', 'FooSubFund'][:rng.randint(1, 2)]
+        dump = ['<?xml version="1.0"?><dump>']
+        syms = []
+        line = 10
+        want = {}
+        for k, nm in enumerate(names):
+            gt = 'foo_%s_get_type' % ('fund' if k == 0 else 'sub_fund')
+            abstract = rng.random() < 0.4
+            dump.append('<fundamental name="%s" get-type="%s" instantiatable="1"%s%s/>' % (
+                nm, gt, ' abstract="1"' if abstract else '', ' parents="FooFund"' if k == 1 else ''))
+            syms.append(S.func(gt, S.td('GType'), [], line=line))
+            syms.append(S.FS(S.CSYMBOL_TYPE_TYPEDEF, nm, base_type=S.FT(S.CTYPE_STRUCT, '_' + nm), line=line + 1))
+            syms.append(S.FS(S.CSYMBOL_TYPE_STRUCT, '_' + nm, base_type=S.FT(S.CTYPE_STRUCT, '_' + nm, child_list=[
+                S.FS(S.CSYMBOL_TYPE_MEMBER, 'refcount', base_type=S.td('gint'), line=line + 2)]), line=line + 2))
+            has_class = rng.random() < 0.85
+            vfs = []
+            if has_class:
+                kids = [S.FS(S.CSYMBOL_TYPE_MEMBER, 'parent_class', base_type=S.td('GTypeClass'), line=line + 4)]
+                for j in range(rng.randint(0, 3)):
+                    vn = rng.choice(['finalize', 'copy', 'describe', 'poke']) + str(j)
+                    vfs.append(vn)
+                    kids.append(S.FS(S.CSYMBOL_TYPE_MEMBER, vn, base_type=S.ptr(S.FT(S.CTYPE_FUNCTION, base_type=S.VOID, child_list=[
+                        S.param('self_', S.ptr(S.td(nm))), S.param('x', S.td('gint'))])), line=line + 5 + j))
+                syms.append(S.FS(S.CSYMBOL_TYPE_TYPEDEF, nm + 'Class', base_type=S.FT(S.CTYPE_STRUCT, '_' + nm + 'Class'), line=line + 3))
+                syms.append(S.FS(S.CSYMBOL_TYPE_STRUCT, '_' + nm + 'Class', base_type=S.FT(S.CTYPE_STRUCT, '_' + nm + 'Class', child_list=kids), line=line + 4))
+            want[nm[3:]] = dict(abstract=abstract, type_struct=(nm[3:] + 'Class') if has_class else None, vfuncs=sorted(vfs),
+                               parent='Fund' if k == 1 else None)
+            line += 20
+        dump.append('</dump>')
+        rng.shuffle(syms)
+        case = dict(dump=''.join(dump), class_structures={k_: v_['type_struct'] for k_, v_ in want.items()})
+        try:
+            r = S.run(syms, includes=['GLib', 'GObject'], dump=ET.ElementTree(ET.fromstring(''.join(dump))), warnings=False)
+        except (Exception, SystemExit) as e:      # noqa
+            ck.failing_input('the scanner fails on fundamental types: %r' % (e,), case)
+            continue
+        ns = S.gir_ns(r.root)
+        ck.count_case(dict(fundamentals=sorted(want)), kind='fundamental')
+        for local, w in want.items():
+            el = next((x for x in ns.findall(S.CORE + 'class') if x.get('name') == local), None)
+            if el is None:
+                ck.failing_input('a fundamental type of the runtime dump is not described as a class', dict(case, type='Foo' + local))
+                continue
+            got = dict(abstract=el.get('abstract') == '1', type_struct=el.get(S.GLIB + 'type-struct'),
+                       vfuncs=sorted(v.get('name') for v in el.findall(S.CORE + 'virtual-method')), parent=el.get('parent'))
+            if el.get(S.GLIB + 'fundamental') != '1' or got != w:
+                ck.failing_input('a fundamental type is not described with its class structure, virtual methods, parent and flags',
+                                 dict(case, type='Foo' + local), detail=dict(expected=dict(w, fundamental='1'), got=dict(got, fundamental=el.get(S.GLIB + 'fundamental'))))
+            if w['type_struct']:
+                rec = next((x for x in ns.findall(S.CORE + 'record') if x.get('name') == w['type_struct']), None)
+                if rec is None or rec.get(S.GLIB + 'is-gtype-struct-for') != local:
+                    ck.failing_input('the class structure of a fundamental type does not point back at it', dict(case, type='Foo' + local),
+                                     detail=None if rec is None else rec.attrib)
+
+
 def main(tier, seed):
     ck = Check('C12', tier, seed)
     ck.assumptions += ['the runtime dump is given as XML (the introspection binary cannot be built and run here); girepository/gdump.c is '
@@ -330,6 +390,7 @@ def main(tier, seed):
     import xml.etree.ElementTree as ET
     rng = random.Random(seed)
     n = 60 if tier == 'quick' else 900
+    fundamental_clauses(ck, S, ET, rng, 12 if tier == 'quick' else 150)
     qitems = []
     for i in range(n // 2):
         run_error_world(ck, S, ET, error_world(rng), qitems)
